@@ -77,6 +77,27 @@ pub trait Prefix: Sized {
             (r is Less) == (self.mask_val() < other.mask_val()),
             (r is Equal) == (self.mask_val() == other.mask_val()),
             (r is Greater) == (self.mask_val() > other.mask_val());
+
+    /// `repr()` (the address *including host bits*) viewed as a number.  The code of /repo never compares
+    /// representations; these methods exist so that a change which starts doing so (`a.repr() == b.repr()`,
+    /// `a.repr().cmp(&b.repr())`, rewritten by rule R12) is decided instead of leaving the Verus subset:
+    /// nothing relates repr_val to bits() except that equal representation and equal length mean the same key.
+    spec fn repr_val(&self) -> nat;
+
+    proof fn lemma_repr(&self, other: &Self)
+        ensures self.repr_val() == other.repr_val() && self.bits().len() == other.bits().len() ==> self.bits() =~= other.bits();
+
+    fn repr_eq(&self, other: &Self) -> (r: bool)
+        ensures r == (self.repr_val() == other.repr_val());
+
+    fn repr_lt(&self, other: &Self) -> (r: bool)
+        ensures r == (self.repr_val() < other.repr_val());
+
+    fn repr_cmp(&self, other: &Self) -> (r: core::cmp::Ordering)
+        ensures
+            (r is Less) == (self.repr_val() < other.repr_val()),
+            (r is Equal) == (self.repr_val() == other.repr_val()),
+            (r is Greater) == (self.repr_val() > other.repr_val());
 }
 
 pub proof fn lemma_pre_refl(a: Seq<bool>)
